@@ -460,12 +460,19 @@ pub enum CallKind {
     Other,
 }
 
+#[derive(Clone, Debug, PartialEq, Eq)]
+pub struct Call {
+    pub kind: CallKind,
+    pub author: Option<VerifyingKey>,
+    pub log: Option<LogIdT>,
+}
+
 #[derive(Default)]
 pub struct FaultCtl {
-    pub trace: Vec<CallKind>,
+    pub trace: Vec<Call>,
     pub plan: Option<(usize, Mutation)>,
-    /// Set when the planned mutation was applied: (call index, kind of the call it preceded).
-    pub fired: Option<(usize, CallKind)>,
+    /// Set when the planned mutation was applied: index of the call it preceded.
+    pub fired: Option<usize>,
 }
 
 /// Wraps a `MemStore`; before trait call number `k` (counted per wrapper, all clones share the
@@ -480,21 +487,21 @@ impl FaultStore {
     pub fn new(inner: MemStore, plan: Option<(usize, Mutation)>) -> Self {
         FaultStore { inner, ctl: Arc::new(Mutex::new(FaultCtl { trace: vec![], plan, fired: None })) }
     }
-    fn enter(&self, kind: CallKind) {
+    fn enter(&self, kind: CallKind, author: Option<&VerifyingKey>, log: Option<&LogIdT>) {
         let mut c = self.ctl.lock().unwrap();
         let idx = c.trace.len();
-        c.trace.push(kind);
+        c.trace.push(Call { kind, author: author.copied(), log: log.copied() });
         if let Some((k, m)) = &c.plan {
             if *k == idx {
                 m.apply(&self.inner);
-                c.fired = Some((idx, kind));
+                c.fired = Some(idx);
             }
         }
     }
-    pub fn trace(&self) -> Vec<CallKind> {
+    pub fn trace(&self) -> Vec<Call> {
         self.ctl.lock().unwrap().trace.clone()
     }
-    pub fn fired(&self) -> Option<(usize, CallKind)> {
+    pub fn fired(&self) -> Option<usize> {
         self.ctl.lock().unwrap().fired
     }
 }
@@ -503,27 +510,27 @@ impl LogStore<Op, VerifyingKey, LogIdT, SeqNum, Hash> for FaultStore {
     type Error = MemError;
 
     async fn get_latest_entry(&self, author: &VerifyingKey, log_id: &LogIdT) -> Result<Option<Op>, MemError> {
-        self.enter(CallKind::Other);
+        self.enter(CallKind::Other, Some(author), Some(log_id));
         self.inner.get_latest_entry(author, log_id).await
     }
     async fn get_latest_entry_tx(&self, author: &VerifyingKey, log_id: &LogIdT) -> Result<Option<Op>, MemError> {
-        self.enter(CallKind::Other);
+        self.enter(CallKind::Other, Some(author), Some(log_id));
         self.inner.get_latest_entry_tx(author, log_id).await
     }
     async fn get_log_heights(&self, author: &VerifyingKey, logs: &[LogIdT]) -> Result<Option<BTreeMap<LogIdT, SeqNum>>, MemError> {
-        self.enter(CallKind::Heights);
+        self.enter(CallKind::Heights, Some(author), None);
         <MemStore as LogStore<Op, VerifyingKey, LogIdT, SeqNum, Hash>>::get_log_heights(&self.inner, author, logs).await
     }
     async fn get_log_size(&self, author: &VerifyingKey, log_id: &LogIdT, after: Option<SeqNum>, until: Option<SeqNum>) -> Result<Option<(u32, u32)>, MemError> {
-        self.enter(CallKind::Size);
+        self.enter(CallKind::Size, Some(author), Some(log_id));
         <MemStore as LogStore<Op, VerifyingKey, LogIdT, SeqNum, Hash>>::get_log_size(&self.inner, author, log_id, after, until).await
     }
     async fn get_log_entries(&self, author: &VerifyingKey, log_id: &LogIdT, after: Option<SeqNum>, until: Option<SeqNum>) -> Result<Option<Vec<(Op, Vec<u8>)>>, MemError> {
-        self.enter(CallKind::Entries);
+        self.enter(CallKind::Entries, Some(author), Some(log_id));
         self.inner.get_log_entries(author, log_id, after, until).await
     }
     async fn prune_entries(&self, author: &VerifyingKey, log_id: &LogIdT, until: &SeqNum) -> Result<u64, MemError> {
-        self.enter(CallKind::Other);
+        self.enter(CallKind::Other, None, None);
         <MemStore as LogStore<Op, VerifyingKey, LogIdT, SeqNum, Hash>>::prune_entries(&self.inner, author, log_id, until).await
     }
 }
@@ -531,15 +538,15 @@ impl LogStore<Op, VerifyingKey, LogIdT, SeqNum, Hash> for FaultStore {
 impl TopicStore<[u8; 32], VerifyingKey, LogIdT> for FaultStore {
     type Error = MemError;
     async fn associate(&self, topic: &[u8; 32], author: &VerifyingKey, data_id: &LogIdT) -> Result<bool, MemError> {
-        self.enter(CallKind::Other);
+        self.enter(CallKind::Other, None, None);
         self.inner.associate(topic, author, data_id).await
     }
     async fn remove(&self, topic: &[u8; 32], author: &VerifyingKey, data_id: &LogIdT) -> Result<bool, MemError> {
-        self.enter(CallKind::Other);
+        self.enter(CallKind::Other, None, None);
         <MemStore as TopicStore<[u8; 32], VerifyingKey, LogIdT>>::remove(&self.inner, topic, author, data_id).await
     }
     async fn resolve(&self, topic: &[u8; 32]) -> Result<BTreeMap<VerifyingKey, Vec<LogIdT>>, MemError> {
-        self.enter(CallKind::Resolve);
+        self.enter(CallKind::Resolve, None, None);
         self.inner.resolve(topic).await
     }
 }
